@@ -19,6 +19,7 @@ impl SyntaxErr {
 }
 //@ extract enum IRRepr from src/classic/clvm_tools/ir/type.rs
 //@ end
+//@ include units/inc/irshow.rs
 //@ extract struct IRReader from src/classic/clvm_tools/ir/reader.rs
 //@ end
 pub closed spec fn rd_stream(r: IRReader) -> Stream { r.stream }
@@ -200,11 +201,11 @@ pub proof fn lemma_atom_len(t: Seq<u8>)
     if t.len() > 0 && !delim(t[0]) { lemma_atom_len(t.subrange(1, t.len() as int)); }
 }
 // what the atom text denotes (numbers, hex, symbols): string parsing, outside this unit
-pub uninterp spec fn interp_spec(chars: Seq<u8>) -> Result<IRRepr, SyntaxErr>;
+pub uninterp spec fn interp_v(chars: Seq<u8>) -> Option<IRS>;
 //@ extract fn interpret_atom_value from src/classic/clvm_tools/ir/reader.rs
 //@ stub
 //@ sig r
-    ensures r == interp_spec(chars@)
+    ensures match interp_v(chars@) { Some(v) => r matches Ok(x) && irv(x) == v, None => r is Err }
 //@ end
 pub open spec fn is_suffix(a: Seq<u8>, b: Seq<u8>) -> bool { a.len() <= b.len() && a == b.subrange(b.len() - a.len(), b.len() as int) }
 
@@ -220,8 +221,8 @@ pub open spec fn is_suffix(a: Seq<u8>, b: Seq<u8>) -> bool { a.len() <= b.len() 
            let text = bv(*b) + rest0.subrange(0, n);
            rd_rest(*final(s)) == rest0.subrange(n, rest0.len() as int)
            && stream_seek(rd_stream(*final(s))) == stream_seek(rd_stream(*old(s))) + n
-           && r == (if text.len() == 0 && n == rest0.len() { Ok(None::<IRRepr>) } else {
-                   match interp_spec(text) { Ok(v) => Ok::<Option<IRRepr>, SyntaxErr>(Some(v)), Err(e) => Err::<Option<IRRepr>, SyntaxErr>(e) } }) }),
+           && (if text.len() == 0 && n == rest0.len() { r matches Ok(None) } else {
+                   match interp_v(text) { Some(v) => r matches Ok(Some(x)) && irv(x) == v, None => r is Err } }) }),
 //@ before stmt @<let mut result_vec>@
     let ghost rest0 = rd_rest(*s);
     let ghost s0 = *s;
@@ -268,8 +269,26 @@ pub open spec fn is_suffix(a: Seq<u8>, b: Seq<u8>) -> bool { a.len() <= b.len() 
 //@ extract fn enlist_ir from src/classic/clvm_tools/ir/reader.rs
 //@ replace R49 @<fn enlist_ir(vec: &mut [IRRepr], tail: IRRepr) -> IRRepr {>@ => @<fn enlist_ir(vec: &mut Vec<IRRepr>, tail: IRRepr) -> IRRepr {>@
 //@ replace R4 @<swap(&mut vec[i], &mut next_head);>@ => @<verif_swap_at(vec, i, &mut next_head);>@
+//@ sig r
+    ensures irv(r) == enlist_v(irvs(old(vec)@), irv(tail))
+//@ before stmt @<let mut result = tail;>@
+    let ghost verif_v0 = irvs(vec@);
+    let ghost verif_t0 = irv(tail);
+    proof { assert(verif_v0.subrange(0, vec@.len() as int) =~= verif_v0); }
 //@ loop 0
-        invariant vec@.len() == old(vec)@.len()
+        invariant
+            vec@.len() == old(vec)@.len(), verif_v0 == irvs(old(vec)@), verif_v0.len() == vec@.len(),
+            forall|j: int| 0 <= j < vec@.len() - i_reverse ==> irv(#[trigger] vec@[j]) == verif_v0[j],
+            enlist_v(verif_v0, verif_t0) == enlist_v(verif_v0.subrange(0, vec@.len() - i_reverse), irv(result)),
+//@ after stmt @<result = IRRepr::Cons(Rc::new(next_head), Rc::new(result));>@
+        proof {
+            let k = vec@.len() - i_reverse;
+            let pre = verif_v0.subrange(0, k);
+            assert(pre.drop_last() =~= verif_v0.subrange(0, k - 1));
+            assert(pre.last() == verif_v0[k - 1]);
+        }
+//@ before tail
+    proof { assert(verif_v0.subrange(0, 0) =~= Seq::<IRS>::empty()); }
 //@ end
 // R4: std::mem::swap(&mut vec[i], &mut x) -> exchange of element i with x (trusted)
 #[verifier::external_body]
@@ -325,22 +344,80 @@ pub proof fn lemma_scan_bound(rest: Seq<u8>, q: u8, bs: bool)
     }
 }
 
+// SPEC: the grammar the classic reader accepts, as a function of the remaining text: the term read and the text left, or None for an error
+pub open spec fn p_obj(t: Seq<u8>) -> Option<(IRS, Seq<u8>)>
+    decreases t.len(), 1int
+{
+    let t1 = skip_ws(t, false);
+    if t1.len() > t.len() { None }
+    else if t1.len() == 0 { Some((IRS::Null, t1)) }
+    else {
+        let c = t1[0];
+        let r = t1.subrange(1, t1.len() as int);
+        if c == 0x28 { p_body(r, Seq::<IRS>::empty()) }
+        else if c == 0x22 || c == 0x27 { match scan(r, c, false) { Some((text, n)) => if 1 <= n <= r.len() { Some((IRS::Quotes(text), r.subrange(n, r.len() as int))) } else { None }, None => None } }
+        else {
+            let n = atom_len(r);
+            if !(0 <= n <= r.len()) { None } else { match interp_v(seq![c] + r.subrange(0, n)) { Some(v) => Some((v, r.subrange(n, r.len() as int))), None => None } }
+        }
+    }
+}
+pub open spec fn p_body(t: Seq<u8>, acc: Seq<IRS>) -> Option<(IRS, Seq<u8>)>
+    decreases t.len(), 0int
+{
+    let t1 = skip_ws(t, false);
+    if t1.len() == 0 || t1.len() > t.len() { None } else {
+        let c = t1[0];
+        let r = t1.subrange(1, t1.len() as int);
+        if c == 0x29 { Some((enlist_v(acc, IRS::Null), r)) }
+        else if c == 0x28 { match p_body(r, Seq::<IRS>::empty()) { Some((v, r2)) => if r2.len() <= r.len() { p_body(r2, acc.push(v)) } else { None }, None => None } }
+        else if c == 0x2e {
+            let t2 = skip_ws(r, false);
+            if t2.len() > r.len() { None } else { match p_obj(t2) {
+                Some((v, r3)) => { let t3 = skip_ws(r3, false); if t3.len() > 0 && t3[0] == 0x29 { Some((enlist_v(acc, v), t3.subrange(1, t3.len() as int))) } else { None } },
+                None => None,
+            } }
+        }
+        else if c == 0x22 || c == 0x27 { match scan(r, c, false) { Some((text, n)) => if 1 <= n <= r.len() { p_body(r.subrange(n, r.len() as int), acc.push(IRS::Quotes(text))) } else { None }, None => None } }
+        else {
+            let n = atom_len(r);
+            if !(0 <= n <= r.len()) { None } else { match interp_v(seq![c] + r.subrange(0, n)) { Some(v) => p_body(r.subrange(n, r.len() as int), acc.push(v)), None => None } }
+        }
+    }
+}
+pub open spec fn parsed(res: Result<IRRepr, SyntaxErr>, fin: Seq<u8>, want: Option<(IRS, Seq<u8>)>) -> bool {
+    match want { Some((v, rem)) => res matches Ok(x) && irv(x) == v && fin == rem, None => res is Err }
+}
+pub proof fn lemma_irvs_push(v: Seq<IRRepr>, x: IRRepr)
+    ensures irvs(v.push(x)) == irvs(v).push(irv(x))
+{
+    assert(irvs(v.push(x)) =~= irvs(v).push(irv(x)));
+}
+
 //@ note consume_cons_body / consume_object (the classic reader as a whole, C14): for every text, every index is in range, every read is inside the text, the cursor only moves forward and both functions terminate (each list element consumes at least one byte)
 //@ extract fn consume_cons_body from src/classic/clvm_tools/ir/reader.rs
+//@ canary dot_needs_no_paren @<if b.length() == 0 || b.at(0) != b')' {>@ => @<if b.length() == 0 {>@
 //@ replace all R1 @<"missing )".to_string()>@ => @<verif_opaque_string()>@
 //@ sig r
     requires rd_ok(*old(s)), stream_seek(rd_stream(*old(s))) >= 1
-    ensures kept(*old(s), *final(s)), r is Ok ==> fwd(*old(s), *final(s))
+    ensures kept(*old(s), *final(s)), r is Ok ==> fwd(*old(s), *final(s)),
+        parsed(r, rd_rest(*final(s)), p_body(rd_rest(*old(s)), Seq::<IRS>::empty())),
     decreases rd_rest(*old(s)).len(), 1int
 //@ before stmt @<let mut result = vec![];>@
     let ghost s0 = *s;
+    let ghost verif_target = p_body(rd_rest(*s), Seq::<IRS>::empty());
     proof { assert(rd_rest(s0).subrange(0, rd_rest(s0).len() as int) =~= rd_rest(s0)); lemma_fwd_by(s0, *s, 0); }
+//@ after stmt @<let mut result = vec![];>@
+    proof { assert(irvs(result@) =~= Seq::<IRS>::empty()); }
 //@ loop 0
         invariant
             s0 == *old(s), kept(s0, *s), fwd(s0, *s), stream_seek(rd_stream(*s)) >= 1,
+            verif_target == p_body(rd_rest(s0), Seq::<IRS>::empty()),
+            verif_target == p_body(rd_rest(*s), irvs(result@)),
         decreases rd_rest(*s).len()
 //@ before #0 stmt @<consume_whitespace(s);>@
         let ghost verif_top = *s;
+        let ghost verif_acc = irvs(result@);
         proof { lemma_skip_ws_suffix(rd_rest(*s), false); lemma_rest_len(*s); }
 //@ after #0 stmt @<consume_whitespace(s);>@
         let ghost verif_ws = *s;
@@ -351,18 +428,34 @@ pub proof fn lemma_scan_bound(rest: Seq<u8>, q: u8, bs: bool)
         }
 //@ after #0 stmt @<let b = s.read(1);>@
         let ghost verif_rd = *s;
+        let ghost verif_t1 = rd_rest(verif_ws);
+        let ghost verif_r = rd_rest(*s);
         proof {
             lemma_same_len(verif_ws, *s); lemma_rest_len(*s);
             if bv(b).len() > 0 {
                 lemma_fwd_by(verif_ws, *s, 1);
                 lemma_fwd_trans(s0, verif_ws, *s);
+                assert(bv(b) =~= seq![verif_t1[0]]);
+                assert(verif_r == verif_t1.subrange(1, verif_t1.len() as int));
+                lemma_scan_bound(verif_r, verif_t1[0], false);
+                lemma_atom_len(verif_r);
+                lemma_skip_ws_suffix(verif_r, false);
             }
         }
 //@ after stmt @<let v = consume_cons_body(s)?;>@
-            proof { lemma_fwd_trans(s0, verif_rd, *s); }
+            proof { lemma_fwd_trans(s0, verif_rd, *s); lemma_rest_len(*s); lemma_same_len(verif_rd, *s); lemma_rest_len(verif_rd); }
+//@ before #0 stmt @<result.push(v);>@
+            let ghost verif_res0 = result@;
+            let ghost verif_v = v;
+//@ after #0 stmt @<result.push(v);>@
+            proof { lemma_irvs_push(verif_res0, verif_v); }
+//@ before #1 stmt @<result.push(v);>@
+            let ghost verif_res0 = result@;
+            let ghost verif_v = v;
+//@ after #1 stmt @<result.push(v);>@
+            proof { lemma_irvs_push(verif_res0, verif_v); }
 //@ after stmt @<let v = consume_quoted(s, b.at(0))?;>@
             proof {
-                lemma_scan_bound(rd_rest(verif_rd), bv(b)[0], false);
                 lemma_rdok_from_sum(verif_rd, *s);
                 match scan(rd_rest(verif_rd), bv(b)[0], false) { Some((t, n)) => { lemma_fwd_by(verif_rd, *s, n); } None => {} }
                 lemma_fwd_trans(s0, verif_rd, *s);
@@ -389,21 +482,25 @@ pub proof fn lemma_scan_bound(rest: Seq<u8>, q: u8, bs: bool)
 //@ after #1 stmt @<let b = s.read(1);>@
             proof {
                 lemma_same_len(verif_ws3, *s); lemma_rest_len(*s);
-                if bv(b).len() > 0 { lemma_fwd_by(verif_ws3, *s, 1); lemma_fwd_trans(s0, verif_ws3, *s); }
+                if bv(b).len() > 0 { lemma_fwd_by(verif_ws3, *s, 1); lemma_fwd_trans(s0, verif_ws3, *s); assert(bv(b)[0] == rd_rest(verif_ws3)[0]); }
             }
 //@ before stmt @<result.push(f);>@
+            let ghost verif_res0 = result@;
+            let ghost verif_v = f;
             proof {
-                lemma_atom_len(rd_rest(verif_rd));
                 lemma_same_len(verif_rd, *s); lemma_rest_len(*s); lemma_rest_len(verif_rd);
                 lemma_fwd_by(verif_rd, *s, atom_len(rd_rest(verif_rd)));
                 lemma_fwd_trans(s0, verif_rd, *s);
             }
+//@ after stmt @<result.push(f);>@
+            proof { lemma_irvs_push(verif_res0, verif_v); }
 //@ end
 //@ extract fn consume_object from src/classic/clvm_tools/ir/reader.rs
 //@ replace all R1 @<"empty stream".to_string()>@ => @<verif_opaque_string()>@
 //@ sig r
     requires rd_ok(*old(s))
-    ensures kept(*old(s), *final(s)), r is Ok ==> fwd(*old(s), *final(s))
+    ensures kept(*old(s), *final(s)), r is Ok ==> fwd(*old(s), *final(s)),
+        parsed(r, rd_rest(*final(s)), p_obj(rd_rest(*old(s)))),
     decreases rd_rest(*old(s)).len(), 2int
 //@ before stmt @<consume_whitespace(s);>@
     let ghost s0 = *s;
@@ -416,17 +513,286 @@ pub proof fn lemma_scan_bound(rest: Seq<u8>, q: u8, bs: bool)
     }
 //@ after stmt @<let b = s.read(1);>@
     let ghost verif_rd = *s;
+    let ghost verif_t1 = rd_rest(verif_ws);
+    let ghost verif_r = rd_rest(*s);
     proof {
         lemma_same_len(verif_ws, *s); lemma_rest_len(*s);
         if bv(b).len() > 0 {
             lemma_fwd_by(verif_ws, *s, 1); lemma_fwd_trans(s0, verif_ws, *s);
             lemma_scan_bound(rd_rest(verif_rd), bv(b)[0], false);
             lemma_atom_len(rd_rest(verif_rd));
+            assert(bv(b) =~= seq![verif_t1[0]]);
+            assert(verif_r == verif_t1.subrange(1, verif_t1.len() as int));
         } else {
             lemma_fwd_by(verif_ws, *s, 0); lemma_fwd_trans(s0, verif_ws, *s);
         }
     }
 //@ end
+
+// ---- C09, text level: what the classic writer prints (show: transcribed from IROutputIterator, proved to be what it emits in unit
+// irwrite) is read back by the reader above as the same term.  Leaf tokens are abstract: tok(v) is the text of an atom-like term; what is
+// ASSUMED of it (leaf_ok) is what the string conversions and the keyword table owe: a number / hex / symbol token has no blank or
+// parenthesis inside, does not begin like a dot, string or comment, and interpret_atom_value reads it back as the term; a quoted string
+// begins with its quote and scans back to its bytes (lemma scan_reads_back, unit quoted, given that the writer escapes quote and backslash)
+pub open spec fn quote_byte(c: u8) -> bool { c == 0x22 || c == 0x27 }
+pub open spec fn leaf_ok(v: IRS) -> bool {
+    let t = tok(v);
+    !(v is Cons) && !(v is Null) && t.len() > 0 && (
+        if v is Quotes {
+            quote_byte(t[0]) && forall|rest: Seq<u8>| #[trigger] scan(t.subrange(1, t.len() as int) + rest, t[0], false) == Some((v->Quotes_0, t.len() - 1))
+        } else {
+            !quote_byte(t[0]) && t[0] != 0x2e && t[0] != 0x3b
+            && (forall|i: int| 0 <= i < t.len() ==> !delim(#[trigger] t[i]))
+            && interp_v(t) == Some(v)
+        })
+}
+pub open spec fn wf_ir(v: IRS) -> bool
+    decreases v
+{
+    match v { IRS::Cons(l, r) => wf_ir(*l) && wf_ir(*r), IRS::Null => true, _ => leaf_ok(v) }
+}
+// the list the reader has collected so far, continued by the remaining structure v
+pub open spec fn build(acc: Seq<IRS>, v: IRS) -> IRS
+    decreases v
+{
+    match v { IRS::Cons(l, r) => build(acc.push(*l), *r), _ => enlist_v(acc, v) }
+}
+pub proof fn lemma_enlist_push(acc: Seq<IRS>, x: IRS, tail: IRS)
+    ensures enlist_v(acc.push(x), tail) == enlist_v(acc, IRS::Cons(Box::new(x), Box::new(tail)))
+{
+    assert(acc.push(x).drop_last() =~= acc);
+}
+pub proof fn lemma_build(acc: Seq<IRS>, v: IRS)
+    ensures build(acc, v) == enlist_v(acc, v)
+    decreases v
+{
+    match v {
+        IRS::Cons(l, r) => { lemma_build(acc.push(*l), *r); lemma_enlist_push(acc, *l, *r); }
+        _ => {}
+    }
+}
+pub proof fn lemma_skip_none(t: Seq<u8>)
+    requires t.len() > 0, !sp(t[0]), t[0] != 0x3b
+    ensures skip_ws(t, false) == t
+{}
+pub proof fn lemma_skip_blank(t: Seq<u8>)
+    ensures skip_ws(seq![0x20u8] + t, false) == skip_ws(t, false)
+{
+    let x = seq![0x20u8] + t;
+    assert(x.subrange(1, x.len() as int) =~= t);
+}
+pub proof fn lemma_atom_len_tok(t: Seq<u8>, rest: Seq<u8>)
+    requires forall|i: int| 0 <= i < t.len() ==> !delim(#[trigger] t[i]), rest.len() == 0 || delim(rest[0])
+    ensures atom_len(t + rest) == t.len()
+    decreases t.len()
+{
+    let x = t + rest;
+    if t.len() == 0 { assert(x =~= rest); }
+    else {
+        assert(x[0] == t[0]);
+        assert(x.subrange(1, x.len() as int) =~= t.subrange(1, t.len() as int) + rest);
+        lemma_atom_len_tok(t.subrange(1, t.len() as int), rest);
+    }
+}
+// first byte of what show / show_list print: never a blank or a comment sign
+pub proof fn lemma_show_head(v: IRS)
+    requires wf_ir(v)
+    ensures show(v).len() > 0, !sp(show(v)[0]), show(v)[0] != 0x3b, show_list(v).len() > 0, !sp(show_list(v)[0]), show_list(v)[0] != 0x3b
+    decreases v
+{
+    match v {
+        IRS::Cons(l, r) => { lemma_show_head(*l); assert(show_list(v)[0] == show(*l)[0]); }
+        IRS::Null => {}
+        _ => { assert(!delim(tok(v)[0])); }
+    }
+}
+// reading one leaf token followed by a delimiter (or the end)
+pub proof fn lemma_leaf(v: IRS, rest: Seq<u8>)
+    requires leaf_ok(v), rest.len() == 0 || delim(rest[0])
+    ensures p_obj(tok(v) + rest) == Some((v, rest))
+{
+    let t = tok(v);
+    let x = t + rest;
+    assert(!delim(t[0])) by { if !(v is Quotes) { } };
+    if v is Quotes {
+        // a quote byte is not a blank
+    }
+    assert(x[0] == t[0]);
+    lemma_skip_none(x);
+    let r = x.subrange(1, x.len() as int);
+    assert(r =~= t.subrange(1, t.len() as int) + rest);
+    if v is Quotes {
+        assert(scan(t.subrange(1, t.len() as int) + rest, t[0], false) == Some((v->Quotes_0, t.len() - 1)));
+        lemma_scan_bound(r, t[0], false);
+        assert(r.subrange(t.len() - 1, r.len() as int) =~= rest);
+        assert(skip_ws(x, false) == x);
+        assert(p_obj(x) == Some((IRS::Quotes(v->Quotes_0), rest)));
+    } else {
+        let t1 = t.subrange(1, t.len() as int);
+        assert forall|i: int| 0 <= i < t1.len() implies !delim(#[trigger] t1[i]) by { assert(t1[i] == t[i + 1]); }
+        lemma_atom_len_tok(t1, rest);
+        assert(r.subrange(0, t.len() - 1) =~= t1);
+        assert(seq![t[0]] + t1 =~= t);
+        assert(r.subrange(t.len() - 1, r.len() as int) =~= rest);
+        assert(skip_ws(x, false) == x);
+        assert(atom_len(r) == t.len() - 1);
+        assert(seq![x[0]] + r.subrange(0, t.len() - 1) == t);
+        assert(p_obj(x) == Some((v, rest)));
+    }
+}
+
+pub proof fn lemma_body_blank(y: Seq<u8>, acc: Seq<IRS>)
+    ensures p_body(seq![0x20u8] + y, acc) == p_body(y, acc)
+{
+    lemma_skip_blank(y);
+    lemma_skip_ws_suffix(y, false);
+    lemma_skip_ws_suffix(seq![0x20u8] + y, false);
+}
+// one element of a list followed by a delimiter: the reader appends it to what it has collected
+pub proof fn lemma_parse_elem(l: IRS, acc: Seq<IRS>, s_after: Seq<u8>)
+    requires wf_ir(l), s_after.len() > 0, delim(s_after[0])
+    ensures p_body(show(l) + s_after, acc) == p_body(s_after, acc.push(l))
+    decreases l, 1int
+{
+    let big_t = show(l) + s_after;
+    lemma_show_head(l);
+    assert(big_t[0] == show(l)[0]);
+    lemma_skip_none(big_t);
+    let acc1 = acc.push(l);
+    let rr = big_t.subrange(1, big_t.len() as int);
+    match l {
+        IRS::Cons(ll, lr) => {
+            let inner = show_list(l) + s_after;
+            assert(show(l) =~= seq![0x28u8] + show_list(l));
+            assert(rr =~= inner);
+            lemma_parse_list(l, Seq::<IRS>::empty(), s_after);
+            lemma_build(Seq::<IRS>::empty(), l);
+            assert(enlist_v(Seq::<IRS>::empty(), l) == l);
+        }
+        IRS::Null => {
+            assert(show(l) =~= seq![0x28u8, 0x29u8]);
+            let inner = seq![0x29u8] + s_after;
+            assert(rr =~= inner);
+            assert(inner[0] == 0x29u8);
+            lemma_skip_none(inner);
+            assert(inner.subrange(1, inner.len() as int) =~= s_after);
+            assert(p_body(inner, Seq::<IRS>::empty()) == Some((IRS::Null, s_after)));
+        }
+        _ => {
+            assert(leaf_ok(l));
+            let t = tok(l);
+            assert(show(l) == t);
+            let t1 = t.subrange(1, t.len() as int);
+            assert(rr =~= t1 + s_after);
+            if l is Quotes {
+                assert(scan(t1 + s_after, t[0], false) == Some((l->Quotes_0, t.len() - 1)));
+                lemma_scan_bound(rr, t[0], false);
+                assert(rr.subrange(t.len() - 1, rr.len() as int) =~= s_after);
+                assert(l == IRS::Quotes(l->Quotes_0));
+            } else {
+                assert forall|i: int| 0 <= i < t1.len() implies !delim(#[trigger] t1[i]) by { assert(t1[i] == t[i + 1]); }
+                lemma_atom_len_tok(t1, s_after);
+                assert(rr.subrange(0, t.len() - 1) =~= t1);
+                assert(seq![big_t[0]] + rr.subrange(0, t.len() - 1) =~= t);
+                assert(rr.subrange(t.len() - 1, rr.len() as int) =~= s_after);
+                assert(!delim(t[0]));
+            }
+        }
+    }
+}
+// what follows an element: the closing parenthesis, or a blank and the rest of the list
+pub proof fn lemma_parse_sep(r: IRS, acc1: Seq<IRS>, rest: Seq<u8>)
+    requires wf_ir(r)
+    ensures p_body(sep(r) + rest, acc1) == Some((build(acc1, r), rest)), sep(r).len() > 0, delim(sep(r)[0])
+    decreases r, 1int
+{
+    let s_after = sep(r) + rest;
+    match r {
+        IRS::Null => {
+            assert(s_after =~= seq![0x29u8] + rest);
+            assert(s_after[0] == 0x29u8);
+            lemma_skip_none(s_after);
+            assert(s_after.subrange(1, s_after.len() as int) =~= rest);
+        }
+        _ => {
+            assert(sep(r) =~= seq![0x20u8] + show_list(r));
+            assert(s_after =~= seq![0x20u8] + (show_list(r) + rest));
+            lemma_body_blank(show_list(r) + rest, acc1);
+            lemma_parse_list(r, acc1, rest);
+        }
+    }
+}
+// the rest of a list: what show_list prints is read as the remaining elements and the tail
+pub proof fn lemma_parse_list(v: IRS, acc: Seq<IRS>, rest: Seq<u8>)
+    requires wf_ir(v)
+    ensures p_body(show_list(v) + rest, acc) == Some((build(acc, v), rest))
+    decreases v, 0int
+{
+    let big_t = show_list(v) + rest;
+    match v {
+        IRS::Null => {
+            assert(big_t =~= seq![0x29u8] + rest);
+            assert(big_t[0] == 0x29u8);
+            lemma_skip_none(big_t);
+            assert(big_t.subrange(1, big_t.len() as int) =~= rest);
+        }
+        IRS::Cons(l, r) => {
+            let s_after = sep(*r) + rest;
+            assert(big_t =~= show(*l) + s_after);
+            lemma_parse_sep(*r, acc.push(*l), rest);
+            assert(s_after[0] == sep(*r)[0]);
+            lemma_parse_elem(*l, acc, s_after);
+        }
+        _ => {
+            assert(leaf_ok(v));
+            let t = tok(v);
+            let after_dot = seq![0x20u8] + (t + (seq![0x29u8] + rest));
+            assert(big_t =~= seq![0x2eu8] + after_dot);
+            assert(big_t[0] == 0x2eu8);
+            lemma_skip_none(big_t);
+            assert(big_t.subrange(1, big_t.len() as int) =~= after_dot);
+            let close = seq![0x29u8] + rest;
+            lemma_skip_blank(t + close);
+            assert((t + close)[0] == t[0]);
+            assert(!delim(t[0]));
+            lemma_skip_none(t + close);
+            assert(close[0] == 0x29u8);
+            lemma_leaf(v, close);
+            lemma_skip_none(close);
+            assert(close.subrange(1, close.len() as int) =~= rest);
+            lemma_skip_ws_suffix(after_dot, false);
+        }
+    }
+}
+// C09 (classic, text level): the reader reads what the writer prints for a term back as that term, whatever delimiter follows
+pub proof fn lemma_parse_show(v: IRS, rest: Seq<u8>)
+    requires wf_ir(v), rest.len() == 0 || delim(rest[0])
+    ensures p_obj(show(v) + rest) == Some((v, rest))
+{
+    match v {
+        IRS::Cons(l, r) => {
+            let x = show(v) + rest;
+            assert(x =~= seq![0x28u8] + (show_list(v) + rest));
+            assert(x[0] == 0x28u8);
+            lemma_skip_none(x);
+            assert(x.subrange(1, x.len() as int) =~= show_list(v) + rest);
+            lemma_parse_list(v, Seq::<IRS>::empty(), rest);
+            lemma_build(Seq::<IRS>::empty(), v);
+        }
+        IRS::Null => {
+            let x = show(v) + rest;
+            assert(x =~= seq![0x28u8] + (seq![0x29u8] + rest));
+            assert(x[0] == 0x28u8);
+            lemma_skip_none(x);
+            let inner = seq![0x29u8] + rest;
+            assert(x.subrange(1, x.len() as int) =~= inner);
+            assert(inner[0] == 0x29u8);
+            lemma_skip_none(inner);
+            assert(inner.subrange(1, inner.len() as int) =~= rest);
+        }
+        _ => { lemma_leaf(v, rest); }
+    }
+}
 
 impl IRReader {
 //@ extract fn new from src/classic/clvm_tools/ir/reader.rs in impl IRReader
